@@ -12,7 +12,8 @@ in `UNSAFE_FOR_QUERY_ITEM`).
 Here the exclusion is made independent of the tables: a fixed list `D` of delimiter bytes per
 component, and ONE inclusion between the tables,
 
-> every byte of `U` is left alone by `quote`, or is the space / `%`, or is in `D`,
+> every byte of `U` is left alone by `quote` (with the `safe` argument the component is quoted
+> with: `"/"`, and `"/+"` for a query item), or is the space / `%`, or is in `D`,
 
 from which `cleanStr U s` follows for every string without a control character and without a raw
 delimiter of `D` (`cleanStr_of_delimFree`).
@@ -22,11 +23,14 @@ open Ural Ural.Py Ural.UrlParts Ural.Quote Ural.Canonicalize Ural.Normalize
 
 /-- the inclusion between a component's unsafe set, `quote`'s safe set and the component's
 delimiters `D` -/
-def RequoteSafe (U D : List UInt8) : Prop :=
-  ∀ b ∈ U, quoteSafe (Char.ofNat b.toNat) = true ∨ b = 0x20 ∨ b = 0x25 ∨ b ∈ D
+def RequoteSafeBy (f : Char → Bool) (U D : List UInt8) : Prop :=
+  ∀ b ∈ U, f (Char.ofNat b.toNat) = true ∨ b = 0x20 ∨ b = 0x25 ∨ b ∈ D
 
-instance (U D : List UInt8) : Decidable (RequoteSafe U D) := by
-  unfold RequoteSafe; exact inferInstance
+instance (f : Char → Bool) (U D : List UInt8) : Decidable (RequoteSafeBy f U D) := by
+  unfold RequoteSafeBy; exact inferInstance
+
+/-- the inclusion for `safely_quote`'s default safe set (path, userinfo, fragment) -/
+abbrev RequoteSafe (U D : List UInt8) : Prop := RequoteSafeBy quoteSafe U D
 
 /-- no control character (`CONTROL_CHARS_RE` has removed them) and no raw delimiter of `D` -/
 def delimFree (D : List UInt8) (s : Str) : Bool :=
@@ -45,12 +49,12 @@ theorem delimFree_char {D : List UInt8} {s : Str} (h : delimFree D s = true) {c 
 
 /-- one ASCII character: not a control, not a delimiter of `D` — then it is the space, `%`, or
 comes back raw from `safely_quote` followed by the safe unquoter -/
-theorem cleanRaw_of_requoteSafe {U D : List UInt8} (hinc : RequoteSafe U D) {c : Char}
+theorem cleanRawBy_of_requoteSafe {f : Char → Bool} {U D : List UInt8} (hinc : RequoteSafeBy f U D) {c : Char}
     (hctl : isControlChar c = false) (hD : c.toNat < 0x80 → UInt8.ofNat c.toNat ∉ D) :
-    (c == ' ' || c == '%' || cleanRaw U c) = true := by
+    (c == ' ' || c == '%' || cleanRawBy f U c) = true := by
   by_cases hlt : c.toNat < 0x80
-  · by_cases hq : quoteSafe c = true
-    · simp [cleanRaw, hlt, hq]
+  · by_cases hq : f c = true
+    · simp [cleanRawBy, hlt, hq]
     · by_cases hk : keepEsc U (UInt8.ofNat c.toNat) = true
       · -- kept escaped: a control byte (excluded) or a byte of U
         have hb : (UInt8.ofNat c.toNat).toNat = c.toNat := by simp; omega
@@ -86,24 +90,33 @@ theorem cleanRaw_of_requoteSafe {U D : List UInt8} (hinc : RequoteSafe U D) {c :
             simp [e]
           · exact absurd h1 (hD hlt)
       · simp only [Bool.not_eq_true] at hk
-        simp [cleanRaw, hlt, hk]
-  · simp [cleanRaw, hlt]
+        simp [cleanRawBy, hlt, hk]
+  · simp [cleanRawBy, hlt]
 
 /-- **the quoted-mode exclusion, from the table inclusion**: a string without control characters
-and without raw delimiters of `D` is `cleanStr U` -/
-theorem cleanStr_of_delimFree {U D : List UInt8} (hinc : RequoteSafe U D) {s : Str}
-    (h : delimFree D s = true) : cleanStr U s = true := by
-  simp only [cleanStr, List.all_eq_true]
+and without raw delimiters of `D` is `cleanStrBy f U` -/
+theorem cleanStrBy_of_delimFree {f : Char → Bool} {U D : List UInt8} (hinc : RequoteSafeBy f U D) {s : Str}
+    (h : delimFree D s = true) : cleanStrBy f U s = true := by
+  simp only [cleanStrBy, List.all_eq_true]
   intro c hc
   obtain ⟨h1, h2⟩ := delimFree_char h hc
-  exact cleanRaw_of_requoteSafe hinc h1 h2
+  exact cleanRawBy_of_requoteSafe hinc h1 h2
 
 /-- **`safely_unquote ∘ safely_quote` is the identity on what `safely_unquote` emits**, for every
 delimiter-free input of a component whose tables satisfy the inclusion -/
+theorem requoteBy_round_trip {f : Char → Bool} (hf : SafeSet f) {U D : List UInt8} (hpct : (0x25 : UInt8) ∈ U) (hA : AsciiSet U)
+    (hinc : RequoteSafeBy f U D) (s : Str) (h : delimFree D s = true) :
+    safelyUnquote U (safelyQuoteBy f (safelyUnquote U s)) = safelyUnquote U s :=
+  safelyUnquote_quoteBy_unquote hf U hpct hA s (cleanStrBy_of_delimFree hinc h)
+
+theorem cleanStr_of_delimFree {U D : List UInt8} (hinc : RequoteSafe U D) {s : Str}
+    (h : delimFree D s = true) : cleanStr U s = true :=
+  cleanStrBy_of_delimFree (f := quoteSafe) hinc h
+
 theorem requote_round_trip {U D : List UInt8} (hpct : (0x25 : UInt8) ∈ U) (hA : AsciiSet U)
     (hinc : RequoteSafe U D) (s : Str) (h : delimFree D s = true) :
-    safelyUnquote U (safelyQuote (safelyUnquote U s)) = safelyUnquote U s :=
-  safelyUnquote_quote_unquote U hpct hA s (cleanStr_of_delimFree hinc h)
+    safelyUnquote U (safelyQuote (safelyUnquote U s)) = safelyUnquote U s := by
+  rw [safelyQuote_eq_by]; exact requoteBy_round_trip safeSet_quoteSafe hpct hA hinc s h
 
 /-! ## the components of a parsed URL -/
 
@@ -184,15 +197,15 @@ theorem delimFree_value {v : Str} (h : delimFree [0x3D, 0x23] v = true) (h1 : '&
 /-- **the table-dependent exclusion follows from the fixed one**, given the inclusions for the
 query item and the fragment (the path's is `Normpath.pathClean_cleanStr`) -/
 theorem quotedClean_of_delimFree
-    (hq : RequoteSafe Gen.Quote.unsafeForQueryItem queryDelims)
+    (hq : RequoteSafeBy quoteSafeQ Gen.Quote.unsafeForQueryItem queryDelims)
     (hf : RequoteSafe Gen.Quote.unsafeForFragment fragmentDelims)
     {p : Parsed} (h : QuotedDelimFree p) : QuotedClean p := by
   refine ⟨h.1, ?_, cleanStr_of_delimFree hf h.2.2⟩
   intro kv hkv
   obtain ⟨hk, hv⟩ := h.2.1 kv hkv
   obtain ⟨w1, w2, w3⟩ := wf_safeQslIter p.query kv hkv
-  refine ⟨cleanStr_of_delimFree hq (delimFree_key hk w1 w2), ?_⟩
+  refine ⟨cleanStrBy_of_delimFree hq (delimFree_key hk w1 w2), ?_⟩
   intro v hvm
-  exact cleanStr_of_delimFree hq (delimFree_value (hv v hvm) (w3 v hvm))
+  exact cleanStrBy_of_delimFree hq (delimFree_value (hv v hvm) (w3 v hvm))
 
 end Ural.C03
